@@ -34,11 +34,15 @@ contract('Client._flush_pipeline', module=M, props=['C10'],
              '   old(seq(self.reply_queue))[j].code == self.io.script[old(self.io.next_reply) + j])',
              # ... the queue is drained, and the client has read exactly as many replies as it was owed -- no more
              'len(self.reply_queue) == 0',
-             'self.io.next_reply == old(self.io.next_reply) + old(len(self.reply_queue))'],
+             'self.io.next_reply == old(self.io.next_reply) + old(len(self.reply_queue))',
+             # last_error (what the relay reports after a lost connection) only ever becomes one of the replies just
+             # read, and only an error reply
+             'same(self.last_error, old(self.last_error)) or (self.last_error != None and self.last_error.is_error())'],
          raises={'ConnectionLost': [], 'BadReply': [], 'Timeout': [], 'OSError': []},
          modifies=['contents(self.reply_queue)', 'any(Reply).code', 'any(Reply).message', 'self.io.next_reply',
                    'self.last_error', 'fresh'],
          loops={0: dict(inv=['CLIENT_ok(self)',
+                             'same(self.last_error, old(self.last_error)) or (self.last_error != None and self.last_error.is_error())',
                              'self.io.next_reply >= old(self.io.next_reply)',
                              'len(self.reply_queue) == old(len(self.reply_queue)) - (self.io.next_reply - old(self.io.next_reply))',
                              'forall(range(0, len(self.reply_queue)), lambda j: '
